@@ -2,8 +2,7 @@ CONSTANTS
   MaxJobs = 1
   HistLen = 4
   Random = FALSE
-SPECIFICATION Spec
-CONSTRAINT SysShape
+SPECIFICATION SpecSys
 INVARIANT TypeInv
 INVARIANT CountIsRows
 INVARIANT EmitSys
